@@ -431,6 +431,41 @@ func (b *xbuilder) load(u *ssa.UnOp, sub func(ssa.Value) *X) *X {
 		}
 		return &X{Op: "var", Name: al.Comment, V: al, Cell: al}
 	}
+	// a field of a struct this function builds (x := &T{…}; x.f = v; … x.f …): the one value stored into that field,
+	// when the store is executed before the load on every path and the struct has not been handed to a call in between
+	if fa, ok := addr.(*ssa.FieldAddr); ok {
+		if al, ok := fa.X.(*ssa.Alloc); ok && al.Parent() == u.Parent() && al.Referrers() != nil {
+			var stores []*ssa.Store
+			handed := false
+			for _, r := range *al.Referrers() {
+				switch r := r.(type) {
+				case *ssa.FieldAddr:
+					if r.Field == fa.Field && r.Referrers() != nil {
+						for _, w := range *r.Referrers() {
+							if st, ok := w.(*ssa.Store); ok && st.Addr == ssa.Value(r) {
+								stores = append(stores, st)
+							}
+						}
+					}
+				case ssa.CallInstruction:
+					if MayFollow(r, u) && callMayWriteField(r, al, fa.Field, 0) {
+						handed = true
+					}
+				case *ssa.Store:
+					if r.Val == ssa.Value(al) {
+						handed = true // the pointer itself is stored somewhere
+					}
+				case *ssa.MakeClosure, *ssa.MakeInterface, *ssa.Phi:
+					handed = true
+				}
+			}
+			if !handed && len(stores) == 1 && Precedes(stores[0], u) {
+				x := sub(stores[0].Val)
+				y := *x
+				return &y
+			}
+		}
+	}
 	inner := sub(addr)
 	switch inner.Op {
 	case "field", "index", "global":
@@ -857,4 +892,116 @@ func (c *Ctx) CellFields(x *X) map[string]*X {
 		}
 	}
 	return out
+}
+
+// callMayWriteField: may the call (which receives the struct pointer obj among
+// its arguments) store into field number field of *obj? Decided for static
+// callees with bodies by looking for such a store on the corresponding
+// parameter in the callee, the closures it makes and the functions it hands
+// the parameter on to (depth-bounded); anything else counts as "may".
+func callMayWriteField(call ssa.CallInstruction, obj ssa.Value, field int, depth int) bool {
+	callee := call.Common().StaticCallee()
+	if callee == nil || len(callee.Blocks) == 0 || depth > 3 {
+		return true
+	}
+	args := call.Common().Args
+	off := 0
+	if call.Common().IsInvoke() {
+		return true
+	}
+	for i, a := range args {
+		if a != obj {
+			continue
+		}
+		if i+off >= len(callee.Params) {
+			return true
+		}
+		if valueMayWriteField(callee.Params[i+off], field, depth) {
+			return true
+		}
+	}
+	return false
+}
+
+func valueMayWriteField(v ssa.Value, field int, depth int) bool {
+	refs := v.Referrers()
+	if refs == nil {
+		return false
+	}
+	for _, r := range *refs {
+		switch r := r.(type) {
+		case *ssa.FieldAddr:
+			if r.Field != field || r.Referrers() == nil {
+				continue
+			}
+			for _, w := range *r.Referrers() {
+				switch w := w.(type) {
+				case *ssa.Store:
+					if w.Addr == ssa.Value(r) {
+						return true
+					}
+				case *ssa.UnOp:
+				default:
+					return true // address of the field escapes
+				}
+			}
+		case *ssa.Store:
+			if r.Val == v {
+				// spilled to a local cell (a captured or address-taken parameter): follow the cell's loads
+				if al, ok := r.Addr.(*ssa.Alloc); ok && al.Referrers() != nil {
+					for _, lr := range *al.Referrers() {
+						switch lr := lr.(type) {
+						case *ssa.UnOp:
+							if valueMayWriteField(lr, field, depth) {
+								return true
+							}
+						case *ssa.MakeClosure:
+							if fn, ok := lr.Fn.(*ssa.Function); ok {
+								for bi, bnd := range lr.Bindings {
+									if bnd == ssa.Value(al) && bi < len(fn.FreeVars) {
+										if fvr := fn.FreeVars[bi].Referrers(); fvr != nil {
+											for _, l2 := range *fvr {
+												if ld, ok := l2.(*ssa.UnOp); ok {
+													if valueMayWriteField(ld, field, depth) {
+														return true
+													}
+												} else if _, isSt := l2.(*ssa.Store); isSt {
+													// the captured variable is reassigned: not a write to the struct
+												} else {
+													return true
+												}
+											}
+										}
+									}
+								}
+							}
+						case *ssa.Store:
+						default:
+							return true
+						}
+					}
+					continue
+				}
+				return true
+			}
+		case ssa.CallInstruction:
+			if callMayWriteField(r, v, field, depth+1) {
+				return true
+			}
+		case *ssa.UnOp, *ssa.DebugRef, *ssa.BinOp, *ssa.If:
+		case *ssa.MakeClosure:
+			if fn, ok := r.Fn.(*ssa.Function); ok {
+				for bi, bnd := range r.Bindings {
+					if bnd == v && bi < len(fn.FreeVars) {
+						if valueMayWriteField(fn.FreeVars[bi], field, depth) {
+							return true
+						}
+					}
+				}
+			}
+		default:
+			return true
+		}
+	}
+	return false
 }
